@@ -111,3 +111,37 @@ where
         }
     }
 }
+
+/// Run executions of `f` under `sched` until the scheduler is exhausted (returns `None`) or one
+/// execution fails (returns its outcome; call again to continue the exploration). One shuttle
+/// `Runner` (and so one continuation-stack pool) serves all executions of a call.
+pub fn run_many<F>(sched: &Sched, f: F) -> Option<Outcome>
+where
+    F: Fn() + Send + Sync + 'static,
+{
+    let _ = take_last_panic();
+    parking_lot::verif_rt::clear_background_panics();
+    let runner = Runner::new(sched.clone(), shuttle_config());
+    let res = panic::catch_unwind(AssertUnwindSafe(|| runner.run(f)));
+    if let Some(d) = sched.core().divergence.take() {
+        return Some(Outcome::Divergence(d));
+    }
+    match res {
+        Ok(_) => None,
+        Err(payload) => {
+            let msg = parking_lot::verif_rt::panic_message(&*payload);
+            let first = take_last_panic();
+            if msg.starts_with("deadlock!") {
+                Some(Outcome::Deadlock(msg))
+            } else if msg.contains("exceeded max_steps") {
+                Some(Outcome::StepBound)
+            } else {
+                let bg = !parking_lot::verif_rt::background_panics().is_empty();
+                Some(Outcome::Panic {
+                    msg: first.unwrap_or(msg),
+                    bg,
+                })
+            }
+        }
+    }
+}
